@@ -109,6 +109,10 @@ def gen_ops(rng, items, n_ops):
     ops = []
     usable = [it for it in items if it["pos"] + it["len"] <= 1024]
     watched = rng.sample(usable, min(len(usable), 25))
+    # temperature items are presented in the unit the spa's TempUnits item says: watch them all, and let updates flip the unit
+    temps = [it for it in usable if it["kind"] == "temp"]
+    units = [it for it in usable if it["key"] == "TempUnits"]
+    watched += [it for it in temps[:12] if it not in watched]
     for it in watched:
         ops.append(("watch", it["key"], rng.randrange(3)))
         if rng.random() < 0.3:
@@ -119,6 +123,10 @@ def gen_ops(rng, items, n_ops):
         r = rng.random()
         it = rng.choice(watched if rng.random() < 0.8 else usable)
         p, ln = it["pos"], it["len"]
+        if units and temps and rng.random() < 0.08:
+            # one update that covers the unit setting AND the temperature items: the unit flips, the readings stay (or one changes)
+            ops.append(("unitflip", units[0]["key"], rng.choice(temps)["key"] if rng.random() < 0.4 else None, "unitflip"))
+            continue
         if r < 0.07:
             ops.append(("unwatch", it["key"], rng.randrange(3)))
         elif r < 0.10:
@@ -224,6 +232,19 @@ def run(ctx):
                 off, seg, cls = op[1], block[op[1]:op[1] + op[2]], op[3]
             elif kind == "flip":
                 off, seg, cls = op[1], bytes([block[op[1]] ^ (1 << op[2])]), op[3]
+            elif kind == "unitflip":
+                u = items[op[1]]
+                nb_ = bytearray(block)
+                w_ = int.from_bytes(nb_[u["pos"]:u["pos"] + u["len"]], "big")
+                if u["bitpos"] is not None:
+                    w_ ^= 1 << u["bitpos"]
+                else:
+                    w_ = 0 if w_ else 1
+                nb_[u["pos"]:u["pos"] + u["len"]] = w_.to_bytes(u["len"], "big")
+                if op[2] is not None:
+                    t_ = items[op[2]]
+                    nb_[t_["pos"]:t_["pos"] + t_["len"]] = bytes(rng.randrange(256) for _ in range(t_["len"]))
+                off, seg, cls = 0, bytes(nb_), op[3]
             else:
                 (o, ln), nchg, cls = op[1], op[2], op[3]
                 seg = bytearray(block[o:o + ln])
